@@ -264,8 +264,8 @@ theorem Remap_agrees (fs : List (String → Bool)) (a : account.Account) (swap :
   rw [Regexes_MatchString_agrees]
   cases fs.any (fun f => f a.name) <;> simp [Outcome.bind]
 
-/-- the registry as far as `Remap` uses it: `SwapType` returns THE account with the type word swapped (see `SwapType_agrees` in
-`TransSwapType` for the translated function itself) -/
+/-- the registry as far as `Remap` uses it: `SwapType` returns THE account with the type word swapped (`TransSwapType`:
+`SwapType_name_agrees` for the translated statements of `SwapType`, `RegistrySwap_of_get` for this property) -/
 def RegistrySwap (swap : account.Account → account.Account) : Prop :=
   ∀ b : Knut.Account, b.wf = true → swap (accountGo b) = accountGo (swapType b)
 
